@@ -140,6 +140,22 @@ pub fn gen_args(t: &mut Tape, nparams: usize, assoc: bool, opts: &GenOpts, mk: &
     args
 }
 
+/// `ab_cd` -> `abcd`, `abcd` -> `a_bcd`: only between two letters, so shape S1 is kept.
+fn underscore_twin(n: &str) -> String {
+    let b = n.as_bytes();
+    for i in 1..b.len().saturating_sub(1) {
+        if b[i] == b'_' && b[i - 1].is_ascii_lowercase() && b[i + 1].is_ascii_lowercase() {
+            return format!("{}{}", &n[..i], &n[i + 1..]);
+        }
+    }
+    for i in 1..b.len() {
+        if b[i - 1].is_ascii_lowercase() && b[i].is_ascii_lowercase() {
+            return format!("{}_{}", &n[..i], &n[i..]);
+        }
+    }
+    n.to_string()
+}
+
 /// Registry of names already used, so that (a) a part never defines two methods of the
 /// same name, (b) parts never collide on a wire name of one kind unless asked to, while
 /// (c) sharing a name between *different* kinds of different parts is frequent.
@@ -174,6 +190,9 @@ impl NameReg {
         for attempt in 0..12 {
             let cand = if attempt < 3 && !self.all.is_empty() && t.chance(30) {
                 self.all[t.pick(self.all.len())].clone()
+            } else if attempt < 3 && !self.all.is_empty() && t.chance(12) {
+                // a distinct name that differs from an earlier one only by an underscore (`setup` / `set_up`)
+                underscore_twin(&self.all[t.pick(self.all.len())])
             } else if s2 {
                 name_s2(t)
             } else {
@@ -583,11 +602,17 @@ pub fn gen_reply_program(id: &str, tape: Vec<u32>, opts: &GenOpts, any_order: bo
         // `SubMsgMethods` trait is not generic over them (recorded finding, probed by C08)
         let payload = gen_payload(t, 0, opts, &mut mk);
         let data = DataMode::ALL[t.weighted(&[25, 12, 12, 15, 12, 12, 12])];
-        let data_ty = match t.pick(4) {
+        // a mandatory typed data parameter may itself be an Option (that is just its JSON type:
+        // `null` decodes to None, absent data is still an error)
+        let data_ty = match t.pick(6) {
             0 => Ty::Rec,
             1 => Ty::U32,
             2 => Ty::Str,
-            _ => Ty::Choice,
+            3 => Ty::Choice,
+            4 if data == DataMode::Typed => Ty::Opt(Box::new(Ty::U32)),
+            5 if data == DataMode::Typed => Ty::Opt(Box::new(Ty::Rec)),
+            4 => Ty::U32,
+            _ => Ty::Rec,
         };
         let mut mkm = |t: &mut Tape, on: ReplyOn, sfx: &str, used: &mut Vec<String>| -> Method {
             // implicit handler name (= method name) only possible for a single name and one method
